@@ -940,14 +940,15 @@ class TexEnv(TexExpr):
 
     def __str__(self):
         contents = ''.join(map(str, self._contents))
-        if self.name == '[tex]':
+        if self.name == '[tex]' and not self.begin and not self.end:
+            # the root environment (no delimiters), not a named `[tex]`
             return contents
         else:
             return '%s%s%s' % (
                 self.begin + str(self.args), contents, self.end)
 
     def __repr__(self):
-        if self.name == '[tex]':
+        if self.name == '[tex]' and not self.begin and not self.end:
             return str(self._contents)
         if not self.args and not self._contents:
             return "%s('%s')" % (self.__class__.__name__, self.name)
